@@ -51,6 +51,7 @@ def run(rep: Report, tier: str) -> None:
 	rule_primary_closed(rep, tm)
 	rule_comparison_chain(rep, idx, pm, gm)
 	rule_keyword_arguments(rep, idx, pm, tm)
+	rule_group_parens(rep, pm, tm)
 
 
 # ---- (a) precedence ---------------------------------------------------------------------------------------------------
@@ -629,3 +630,38 @@ def rule_keyword_arguments(rep, idx, pm, tm) -> None:
 	used_in_call = fc is not None and any(any(isinstance(x, ast.Attribute) and x.attr in ('label', 'labels') for x in ast.walk(g.node)) and (any(isinstance(x, ast.Attribute) and x.attr in ('parameters', 'parameter_at') for x in ast.walk(g.node)) or any(isinstance(x, ast.Raise) for x in ast.walk(g.node))) for g in helper_closure(fc, 2))
 	used_in_handler = any(isinstance(x, ast.Name) and x.id == 'label' and isinstance(x.ctx, ast.Load) for x in ast.walk(h.node) if not isinstance(x, ast.Dict)) and any(isinstance(x, (ast.If, ast.IfExp, ast.Raise)) for x in ast.walk(h.node))
 	r.check(used_in_template or used_in_call or used_in_handler, 'label-used', h.where, 'on_argument passes `label` to expression/argument.j2, which prints only `{{ value }}`, and on_func_call never looks at the labels: `sub(b=1, a=2)` is emitted as `sub(1, 2)` — the values reach the wrong parameters (Python 1, C++ -1)', 'sub(b=1, a=2)')
+
+
+def rule_group_parens(rep, pm, tm) -> None:
+	"""`(e)` in the source overrides operator precedence. The handler receives the rendered text of e, which carries no information about the
+	operators inside (`(a + 1) * (b + 2)` starts with `(` and ends with `)` and is not a parenthesised expression), so the group must be rendered
+	with its parentheses on every path; a decision to drop them can only be made on the node, never on the text."""
+	from vlib.match import atoms, nodes, resolved_returns, X
+	r = rep.rule('C01/group-keeps-parentheses', 'every return of the group handler renders the group template, and every branch of that template encloses the expression in ( )', floor=2)
+	h = pm.handlers.get('on_group')
+	if h is None:
+		r.skip('on_group', (PY2CPP, 1), 'no on_group handler')
+		return
+	sites = {id(s.call): s for s in pm.render_sites() if s.func is h}
+	hx = X(h)
+	params = set(h.params()) - {'self', 'node'}
+	for ret in nodes(hx, ast.Return):
+		v = ret.value
+		if v is None:
+			continue
+		site = next((s for s in sites.values() if unparse(s.call) == unparse(v) or (isinstance(v, ast.Call) and s.call.lineno == v.lineno and unparse(s.call.func) == unparse(v.func))), None)
+		if site is not None and site.names:
+			for t in sorted(site.names):
+				if t not in tm.asts:
+					continue
+				for cond, parts in tm.branches(t):
+					pat = ''.join(p_[1] if p_[0] == 'text' else 'X' for p_ in parts).strip()
+					r.check(pat.startswith('(') and pat.endswith(')') and _top_level_text(pat) == '', f'{t}[{cond[:30]}]', (tm.relpath(t), 1), f'{t}.j2 renders a Python group as `{pat[:80]}`: the parentheses of the source are lost, so `(a + b) * c` is emitted as `a + b * c`', pat[:80])
+			r.ok(f'on_group:return@{unparse(v)[:50]}', h.where)
+			continue
+		known = atoms(hx, ret)
+		textual = all({n.id for n in ast.walk(a) if isinstance(n, ast.Name)} <= params | {'len'} for a, _ in known)
+		if textual:
+			r.violate('on_group:return-without-parentheses', h.where, f'on_group returns `{unparse(v)[:80]}` under {[(unparse(a), p_) for a, p_ in known]}: the rendered text of the inner expression cannot tell whether it is already one parenthesised unit (`(a + 1) * (b + 2)` also starts with `(` and ends with `)`), so `((a + 1) * (b + 2)) % c` is emitted as `(a + 1) * (b + 2) % c`', unparse(v)[:100])
+		else:
+			r.skip('on_group:return-without-parentheses', h.where, f'a return that does not render the group template depends on conditions this rule does not model: {[(unparse(a), p_) for a, p_ in known]}')
